@@ -8,6 +8,12 @@ func allRules() []*Rule {
 		ruleR6(),
 		ruleR7(),
 		ruleR8(),
+		ruleR9(),
+		ruleR10(),
+		ruleR11(),
+		ruleR12(),
 		ruleR16(),
+		ruleR21(),
+		ruleR22(),
 	}
 }
